@@ -1248,6 +1248,16 @@ pub fn gen_c19<W: Write>(w: &mut W, tier: &str, seed: u64) {
             }
         }
     }
+    // syntax errors whose faulting token is (or follows) text of several bytes per character, on line
+    // numbers of 1..5 digits, at the end and in the middle of the line: the range stays inside the listed text
+    let stray = ["PRINT 1;\u{20ac}\u{e9}", "X=\u{e9}", "PRINT \"ok\":\u{fc}", "GOTO 10 \u{65e5}\u{672c}", "PRINT \"\u{65e5}\u{672c}\";\u{1F600}", "A$=\"\u{e9}\"+\u{20ac}\u{20ac}\u{20ac}", "IF A THEN \u{e9} ELSE 10",
+        "PRINT (\u{1F600}", "\u{e9}", "FOR \u{e9}=1 TO 2", "PRINT 1 \u{e9} 2", "DATA \u{e9},1", "PRINT \"\u{e9}\" \u{a7}\u{a7} : PRINT 2", "NEXT \u{20ac}", "DIM A(\u{e9})", "REM fine \u{e9}:\u{e9}"];
+    for ln in [0u32, 7, 10, 123, 4000, 12345, 65529] {
+        for s in stray {
+            emit(w, "C19", "diag", &[format!("{} {}", ln, s)], &[]);
+            emit(w, "C19", "diag", &[format!("{} PRINT \"\u{e9}\u{e9}\";1", ln), format!("{} {}", ln + 0, s)], &[]);
+        }
+    }
     let n = if tier == "thorough" { 20_000 } else { 500 };
     for _ in 0..n {
         let sz = 1 + rng.below(4);
@@ -1255,6 +1265,16 @@ pub fn gen_c19<W: Write>(w: &mut W, tier: &str, seed: u64) {
         damage(&mut rng, &mut p);
         if rng.chance(1, 2) {
             damage(&mut rng, &mut p);
+        }
+        if rng.chance(1, 3) {
+            // a stray run of wide characters somewhere in a line
+            let i = rng.below(p.lines.len());
+            let w3 = *rng.pick(&["\u{e9}", "\u{20ac}\u{e9}", "\u{65e5}\u{672c}\u{8a9e}", "\u{1F600}"]);
+            if rng.chance(1, 2) {
+                p.lines[i].1.push_str(w3);
+            } else {
+                p.lines[i].1 = format!("{}{}", w3, p.lines[i].1);
+            }
         }
         let lines: Vec<String> = p.text().into_iter().filter(|l| !l.contains("INPUT")).collect();
         emit(w, "C19", "diag", &lines, &[]);
